@@ -3209,6 +3209,24 @@ impl<'a> Visitor<'a, '_, Error> for JSONValidator<'a> {
       return self.validate_object_value(value);
     }
 
+    // .lt .le .gt .ge .ne compare numbers by value, whatever the class (unsigned,
+    // negative, floating point) of the literal and of the JSON number
+    if let (Some(ctrl), Value::Number(n), Some(rhs)) =
+      (self.state.ctrl, &self.json, Numeric::from_literal(value))
+    {
+      let lhs = n
+        .as_i64()
+        .map(|i| Numeric::Int(i as i128))
+        .or_else(|| n.as_u64().map(|u| Numeric::Int(u as i128)))
+        .or_else(|| n.as_f64().map(Numeric::Float));
+      if let Some(holds) = lhs.and_then(|lhs| lhs.satisfies(ctrl, rhs)) {
+        if !holds {
+          self.add_error(format!("expected value {} {}, got {}", ctrl, value, n));
+        }
+        return Ok(());
+      }
+    }
+
     let error: Option<String> = match value {
       token::Value::INT(v) => match &self.json {
         Value::Number(n) => match n.as_i64() {
